@@ -889,6 +889,16 @@ def _cf_ite(eng, st, pos, kw):
     return [(st, unbox(z3.If(t, box(a, a.kind), box(b, a.kind)), a.kind))]
 
 
+def resolve_dotted(dotted: str):
+    """The object a contract names by dotted path in /repo; a name that no longer exists means the contract does not
+    apply to the code as it is now (UNDECIDED), not a checker failure."""
+    mod, _, attr = dotted.rpartition(".")
+    try:
+        return getattr(extract.import_module(mod), attr)
+    except (AttributeError, ImportError, ModuleNotFoundError) as e:
+        raise ContractMismatch(f"contract names {dotted}, which does not exist in the code as it is now ({type(e).__name__})") from e
+
+
 def named_language(name: str, how: str = "match"):
     """XmlName | NCName | QName | XmlChars | dotted path of a compiled pattern in /repo."""
     from . import regexinc
@@ -901,9 +911,7 @@ def named_language(name: str, how: str = "match"):
         return regexinc.xml_qname()
     if name == "XmlChars":
         return regexinc.xml_chars()
-    mod, _, attr = name.rpartition(".")
-    m = extract.import_module(mod)
-    return regexinc.match_language(getattr(m, attr), how)
+    return regexinc.match_language(resolve_dotted(name), how)
 
 
 def _cf_in_re(eng, st, pos, kw):
@@ -915,8 +923,7 @@ def _cf_in_re(eng, st, pos, kw):
         cand = [a for _, a in s.alts if isinstance(a, StrV)]
         s = cand[0]
     if "." in n:
-        mod, _, attr = n.rpartition(".")
-        pat = getattr(extract.import_module(mod), attr)
+        pat = resolve_dotted(n)
         if pat.pattern in getattr(eng, "abstract_patterns", ()):
             return [(st, BoolV(bm.abstract_match(pat.pattern, how)(s.t)))]
     return [(st, BoolV(z3.InRe(s.t, named_language(n, how))))]
@@ -941,8 +948,7 @@ def _cf_keys(eng, st, pos, kw):
 def _cf_translate(eng, st, pos, kw):
     """translate_table(s, "pkg.mod.TABLE"): str.translate with the real table constant of /repo."""
     name = z3.simplify(pos[1].t).as_string()
-    mod, _, attr = name.rpartition(".")
-    table = getattr(extract.import_module(mod), attr)
+    table = resolve_dotted(name)
     return [(st, StrV(bm.translate_fn(table)(pos[0].t)))]
 
 
@@ -1169,8 +1175,7 @@ class Verifier(Engine):
         self.line0 = ex.lineno
         self.abstract_patterns = set()
         for dotted in getattr(c, "abstract_regex", []):
-            modn, _, attr = dotted.rpartition(".")
-            self.abstract_patterns.add(getattr(extract.import_module(modn), attr).pattern)
+            self.abstract_patterns.add(resolve_dotted(dotted).pattern)
         self.var_kinds = dict(c.local_kinds)
         for d in ex.decorators:
             base = d.split("(")[0].split(".")[-1]
